@@ -766,7 +766,7 @@ class PolarsSem:
         if name == "StripChars":
             if not all(c.ty == NULLT for c in args[1]):
                 raise Unsupported("strip_chars with characters")
-            return [S.strip_ws(c, L) for c in x]
+            return [S.strip_ws(c, L, side=self.side) for c in x]
         if name == "Slice":
             off = self._const_int(v["input"][1])
             ln = self._const_int(v["input"][2])
